@@ -180,10 +180,70 @@ def run_history(ops: List[list]) -> Tuple[List[Any], List[list], List[dict]]:
     return impl, mops, info
 
 
+def run_many_entries(ch, n_classes: int, extra_pages: int = 70) -> None:
+    """A long history: more cached scripts than any size limit the built-in cache may silently have (Django's
+    LocMemCache defaults to 300 entries and culls the least recently set third when full; `has_key` does not refresh an
+    entry).  `n_classes` components are rendered once each; then `extra_pages` pages, each holding two of the *oldest*
+    components and one brand-new component: every URL such a render emits must be served with that component's code."""
+    from django.template import Context, Template
+    from django.test import Client
+
+    from django_components import registry, render_dependencies
+    from django_components.cache import get_component_media_cache
+
+    cache = get_component_media_cache()
+    cache.clear()
+    client = Client(raise_request_exception=False)
+    names = []
+    try:
+        classes = []
+
+        def define(i):
+            cls = make_class("C19Many%d_%d" % (n_classes, i), "c19many", "/* js %d */" % i, "/* css %d */" % i, None, None)
+            registry.register("c19many%d" % i, cls)
+            names.append("c19many%d" % i)
+            classes.append(cls)
+            return cls
+
+        for i in range(n_classes):
+            define(i).render(type="fragment")
+        for j in range(extra_pages):
+            new = n_classes + j
+            define(new)
+            olds = sorted({j, j // 3})
+            src = "".join("{% component 'c19many" + str(k) + "' / %}" for k in olds + [new])
+            out = render_dependencies(Template(src).render(Context({})), type="fragment")
+            urls = emitted_urls(out)
+            want = {classes[k]._class_hash: k for k in olds + [new]}
+            if len(urls) != 2 * len(want):
+                raise core.InfraError("many-entries: the page emitted %d URLs, expected %d: %r" % (len(urls), 2 * len(want), urls))
+            for u in urls:
+                ch.count("many-entries", 1, 1)
+                resp = client.get(u)
+                h = u[len("/components/cache/"):].split(".")[0]
+                kind = u.rsplit(".", 1)[1]
+                body = resp.content.decode("utf-8", "replace") if resp.status_code == 200 else None
+                exp_body = "/* %s %d */" % (kind, want.get(h, -1))
+                if resp.status_code != 200 or body.strip() != exp_body:
+                    ch.violation("impl-violates-spec", "many-entries",
+                                 {"history": "%d components with js and css rendered once each (fragment); then pages with two of the oldest components and a new one; page %d holds components %s" % (n_classes, j, olds + [new]),
+                                  "url": u, "n_classes": n_classes, "page": j},
+                                 impl={"status": resp.status_code, "body": body},
+                                 spec={"status": 200, "body": exp_body, "clause": "emitted_url_served: every URL a render emits is served, whatever renders and evictions preceded it"})
+                    return
+    finally:
+        for nm in names:
+            try:
+                registry.unregister(nm)
+            except Exception:  # noqa
+                pass
+        cache.clear()
+
+
 def run(tier: str) -> int:
     ch = core.Check(PROP, tier, THEOREMS)
     ch.assumptions += [
-        "the media cache is the default LocMemCache (unbounded, no timeout); evictions are modelled by explicit clears",
+        "the media cache is the built-in LocMemCache (no timeout; unbounded since the fix 22db8d7 — stream many-entries checks that on every run); evictions are modelled by explicit clears",
         "class hashes contain no '.', '/' or ':' (true for every Python class name that is an identifier)",
         "Django's URL resolver is modelled for the two patterns in use (str converter = [^/]+, greedy with backtracking)",
     ]
@@ -196,6 +256,9 @@ def run(tier: str) -> int:
         [["define", 0, "C19Vars", "var v=1;", ".v{}", {"a": 1}, {"c": 1}], ["render", 0, "document"],
          ["get", "slot", 0, None, "js:" + input_hash({"a": 1}), "GET"], ["get", "slot", 0, None, "css:" + input_hash({"c": 1}), "GET"]],
     ]
+    for n_cls in ([140] if tier == "quick" else [140, 120, 100, 149, 60]):
+        if not ch.violations:
+            run_many_entries(ch, n_cls, 70 if n_cls >= 100 else 130)
     histories = fixed + [gen_history(core.rng(PROP, "hist", i), i) for i in range(n)]
     runs = [run_history(h) for h in histories]
     reps = core.drive([{"op": "serve", "ops": mops} for _, mops, _ in runs])
